@@ -93,3 +93,31 @@ pub fn lexa_str_len(s: &str) -> (r: usize)
 pub assume_specification<T, U, F: core::ops::FnOnce(T) -> U>[ core::option::Option::<T>::map_or ](o: Option<T>, d: U, f: F) -> (r: U)
 	requires o.is_some() ==> f.requires((o.unwrap(),)),
 	ensures o.is_none() ==> r == d, o.is_some() ==> f.ensures((o.unwrap(),), r);
+
+// further char classification methods (not called by the pinned lexer; declared so that a change which uses them is judged
+// by the contracts instead of being rejected): exact on ASCII; on non-ASCII the Unicode tables are left uninterpreted
+pub uninterp spec fn uni_alphabetic(c: char) -> bool;
+pub uninterp spec fn uni_numeric(c: char) -> bool;
+pub uninterp spec fn uni_whitespace(c: char) -> bool;
+pub open spec fn ascii_alpha(c: char) -> bool { (65 <= c as u32 <= 90) || (97 <= c as u32 <= 122) }
+pub open spec fn ascii_dig(c: char) -> bool { 48 <= c as u32 <= 57 }
+pub assume_specification[ char::is_ascii_alphabetic ](c: &char) -> (r: bool)
+	ensures r == ascii_alpha(*c);
+pub assume_specification[ char::is_ascii_alphanumeric ](c: &char) -> (r: bool)
+	ensures r == (ascii_alpha(*c) || ascii_dig(*c));
+pub assume_specification[ char::is_ascii_lowercase ](c: &char) -> (r: bool)
+	ensures r == (97 <= *c as u32 <= 122);
+pub assume_specification[ char::is_ascii_uppercase ](c: &char) -> (r: bool)
+	ensures r == (65 <= *c as u32 <= 90);
+pub assume_specification[ char::is_alphabetic ](c: char) -> (r: bool)
+	ensures (c as u32) < 128 ==> r == ascii_alpha(c), (c as u32) >= 128 ==> r == uni_alphabetic(c);
+pub assume_specification[ char::is_numeric ](c: char) -> (r: bool)
+	ensures (c as u32) < 128 ==> r == ascii_dig(c), (c as u32) >= 128 ==> r == uni_numeric(c);
+pub assume_specification[ char::is_alphanumeric ](c: char) -> (r: bool)
+	ensures (c as u32) < 128 ==> r == (ascii_alpha(c) || ascii_dig(c)), (c as u32) >= 128 ==> r == (uni_alphabetic(c) || uni_numeric(c));
+pub assume_specification[ char::is_ascii_whitespace ](c: &char) -> (r: bool)
+	ensures r == (*c == ' ' || *c as u32 == 9 || *c as u32 == 10 || *c as u32 == 12 || *c as u32 == 13);
+pub assume_specification[ char::is_ascii_punctuation ](c: &char) -> (r: bool)
+	ensures r == ((33 <= *c as u32 <= 47) || (58 <= *c as u32 <= 64) || (91 <= *c as u32 <= 96) || (123 <= *c as u32 <= 126));
+pub assume_specification[ char::is_ascii_control ](c: &char) -> (r: bool)
+	ensures r == ((*c as u32) < 32 || *c as u32 == 127);
